@@ -198,6 +198,13 @@ def run_tlc(ctx, name, spec, env_override=None, allow_spec_violation=False):
     recs, notes, st = parse_tlc(out)
     with open(os.path.join(meta, "out.txt"), "w") as f:
         f.write(out)
+    if spec.get("expect_violation"):
+        # a configuration that documents a hazard: TLC must find the named invariant violated
+        if ("Invariant %s is violated" % spec["expect_violation"]) in out:
+            return {"job": name, "verdict": "ok", "exit": p.returncode, "records": [], "stats": st,
+                    "notes": [{"expected_violation_found": spec["expect_violation"]}], "wall_s": round(wall, 2),
+                    "module": spec["module"]}
+        raise ToolError("TLC job %s: expected a violation of %s, found none" % (name, spec["expect_violation"]))
     completed = ("Model checking completed" in out) or ("Finished in" in out and p.returncode in (0, 10, 12, 13))
     verdict = "ok"
     if recs:
@@ -525,6 +532,8 @@ JOBS = {
     # self-consistency of the reference data); depends on the spec only
     "conf_layouts_model": dict(kind="tlc", module="Conf_Layouts", cfg="Conf_Layouts.cfg", workers=8, heap="6g",
                                env={"TABLE": "model:table", "SOURCE": "model"}, spec_only=True),
+    "mc_link": dict(kind="tlc", module="Link", cfg="Link.cfg", cont=False),
+    "mc_link_hazard": dict(kind="tlc", module="Link", cfg="Link_hazard.cfg", cont=False, expect_violation="NoWrongByte"),
     "props_scan": dict(kind="tlc", module="Props_Scan", cfg="Props_Scan.cfg", workers=1,
                        env={"GRAPH1": "art:g_set1", "GRAPH2": "art:g_set2"}),
 }
@@ -539,7 +548,8 @@ PROPS = {
                 thorough=["mc_set1", "conf_set1", "conf_kb1_bytes", "replay_set1_t", "tracespec_kb1_long"], graphs=["g_set1", "g_kb1_bytes"]),
     "C05": dict(quick=["mc_frame", "conf_words", "replay_words"], thorough=["mc_frame_full", "conf_words", "replay_words"],
                 tables=["t_words"]),
-    "C06": dict(quick=["mc_frame", "conf_frame", "replay_frame_q"], thorough=["mc_frame_full", "conf_frame", "replay_frame_t"],
+    "C06": dict(quick=["mc_frame", "mc_link", "mc_link_hazard", "conf_frame", "replay_frame_q"],
+                thorough=["mc_frame_full", "mc_link", "mc_link_hazard", "conf_frame", "replay_frame_t"],
                 graphs=["g_frame"]),
     "C07": dict(quick=["mc_set1", "mc_set2", "props_scan", "selfreplay_set1_q", "selfreplay_set2_q"],
                 thorough=["mc_set1", "mc_set2", "props_scan", "selfreplay_set1_t", "selfreplay_set2_t"], graphs=["g_set1", "g_set2"]),
